@@ -158,6 +158,7 @@ class Interp:
         self.summaries = {}
         self.exact_minmax = False
         self._forks = []
+        self.coarsened = []
         self.containers = set()
         self.container_arity = {}
         self.attr_writes = set()
@@ -214,6 +215,12 @@ class Interp:
                 order.append(k)
         self.max_parts = max(self.max_parts, len(order))
         if len(order) > 64:
+            # too many partitions: give up the least important partition variable and merge
+            for drop in ("$last", "$work"):
+                if drop in self.partvars:
+                    self.partvars = tuple(v for v in self.partvars if v != drop)
+                    self.coarsened.append(drop)
+                    return self.normalize([groups[k] for k in order])
             raise Unsupported("partition explosion")
         return [groups[k] for k in order]
 
@@ -443,6 +450,7 @@ class Interp:
                 # table and index (the index is checked where it is evaluated)
                 a = self.opaque(node, st)
                 self.label_atoms[pure_sym(a)] = (bs, node)
+                st.assign(f"idx({pure_sym(a)})", idx)
                 return a
         return self.opaque(node, st)
 
